@@ -447,8 +447,8 @@ func (d *driver) runVals(quick bool, n int) {
 		combos := []valCombo{{1, seeds[0], 1, chains[0]}, {3, seeds[0], 1, chains[0]}, {3, seeds[1], ^uint64(0), chains[0]}, {3, seeds[0], 1, chains[1]}}
 		d.valsPart("vals:n=4", 4, []string{"3", "1000000", "1500000", tok63}, flagVectors(valFlags, 4), combos)
 	} else {
-		d.valsPart("vals:n=4", 4, []string{"1", "3", "1000000", "1500000", "99999999", tok62, tok63}, flagVectors(valFlags, 4), combosFull([]int{1, 2, 3, 10}, chains))
-		d.valsPart("vals:n=5", 5, []string{"1", "1000000", "1500000", tok63}, flagVectors(valFlags, 5), combosFull([]int{1, 3}, chains[:1]))
+		d.valsPart("vals:n=4", 4, []string{"1", "3", "1000000", "1500000", tok62, tok63}, flagVectors(valFlags, 4), combosFull([]int{1, 3, 10}, chains))
+		d.valsPart("vals:n=5", 5, []string{"3", "1000000", tok63}, flagVectors(valFlags, 5), combosFull([]int{1, 3}, chains[:1]))
 		d.valsPart("vals:n=6:eligible-or-inactive", 6, []string{"3", "1000000", "1500000", tok62}, flagVectors([]byte{'E', 'I'}, 6), combosFull([]int{3}, chains[:1]))
 	}
 	// around 2^64: single validators at / above the uint64 limit and totals crossing it
